@@ -235,7 +235,11 @@ func genC13(env *core.Env, emit func(core.Case)) {
 			if _, e := p.Start(d.B); e == nil {
 				if _, e = p.AllQuestions(); e == nil {
 					if _, e = p.AllAnswers(); e == nil {
-						w = "a compressed response that golang.org/x/net/dns/dnsmessage parses does not decode: " + err.Error()
+						if _, e = p.AllAuthorities(); e == nil {
+							if _, e = p.AllAdditionals(); e == nil {
+								w = "a compressed response that golang.org/x/net/dns/dnsmessage parses does not decode: " + err.Error()
+							}
+						}
 					}
 				}
 			}
@@ -314,6 +318,37 @@ func genC13(env *core.Env, emit func(core.Case)) {
 			emit(core.Case{Name: fmt.Sprintf("no-question/%d", idx), Stream: "no-question", Ops: ops, Key: "no-question", Sig: fmt.Sprintf("no-question/%d/%d", nrec, section),
 				Sample: map[string]any{"stream": "no-question", "records": nrec, "section": section, "len": len(b)}})
 			env.Count("no-question/" + connh0(dec))
+		}
+	}
+	// the smallest well-formed messages: root questions and records of exactly 11 octets (root owner, no data) -
+	// the root priming query with a bare EDNS OPT, a header followed by a bare OPT, runs of empty records
+	{
+		bareOPT := []byte{0, 0, 41, 0x04, 0xd0, 0, 0, 0, 0, 0, 0}
+		empty := []byte{0, 0xff, 0x00, 0, 1, 0, 0, 0, 60, 0, 0}
+		rootQ := []byte{0, 0, 2, 0, 1}
+		hdr := func(fl byte, qd, an, ns, ar int) []byte {
+			return []byte{byte(r.IntN(256)), byte(r.IntN(256)), fl, 0, 0, byte(qd), 0, byte(an), 0, byte(ns), 0, byte(ar)}
+		}
+		for mi, b := range [][]byte{
+			gen.Cat(hdr(1, 1, 0, 0, 1), rootQ, bareOPT),
+			gen.Cat(hdr(1, 0, 0, 0, 1), bareOPT),
+			gen.Cat(hdr(0x81, 1, 3, 0, 1), rootQ, empty, empty, empty, bareOPT),
+			gen.Cat(hdr(0x81, 0, 2, 2, 2), empty, empty, empty, empty, empty, bareOPT),
+			gen.Cat(hdr(0x81, 2, 0, 1, 0), rootQ, rootQ, empty),
+		} {
+			idx++
+			dec := dnsDecodeText(b)
+			w := ""
+			if m, err := dns.DecodeMessage(b); err != nil {
+				w = fmt.Sprintf("a well-formed %d-octet message of root questions and 11-octet records does not decode: %v", len(b), err)
+			} else if got, want := len(m.Question)*1000000+len(m.Answer)*10000+len(m.Authority)*100+len(m.Additional), int(b[5])*1000000+int(b[7])*10000+int(b[9])*100+int(b[11]); got != want {
+				w = fmt.Sprintf("section sizes decoded %d, sent %d", got, want)
+			}
+			ops := []core.Op{{Line: "dns-decode " + core.Hex(b), Kind: 'M', Want: dec, Note: "DecodeMessage of a minimal message"},
+				{Kind: 'X', Note: "the smallest well-formed messages decode", Want: w}}
+			emit(core.Case{Name: fmt.Sprintf("minimal/%d", idx), Stream: "minimal", Ops: ops, Key: "minimal", Sig: fmt.Sprintf("minimal/%d", mi),
+				Sample: map[string]any{"stream": "minimal", "len": len(b)}})
+			env.Count("minimal/" + connh0(dec))
 		}
 	}
 	// HTTPS / SVCB records as other encoders write them: SvcParamKeys in increasing order starting with
